@@ -12,7 +12,7 @@ def tpOK (clk : Nat) (tp : Tp) : Prop :=
   (tp.early = true → tp.total = 0) ∧
   (tp.firstBegin ≠ 0 → tp.addAt ≠ 0 ∧ tp.addAt < tp.firstBegin) ∧
   (tp.lastEnd ≠ 0 → tp.firstBegin ≠ 0 ∧ tp.firstBegin < tp.lastEnd) ∧
-  (tp.started = 0 → tp.firstBegin = 0) ∧ (tp.ended = 0 → tp.lastEnd = 0) ∧
+  (tp.started = 0 ↔ tp.firstBegin = 0) ∧ (tp.ended = 0 ↔ tp.lastEnd = 0) ∧
   match tp.st with
   | .notAdded => tp.addAt = 0 ∧ tp.cbs = 0 ∧ tp.cbAt = 0 ∧ tp.decAt = 0 ∧ tp.started = 0 ∧ tp.ended = 0
   | .adding => tp.addAt = 0 ∧ tp.cbs = 0 ∧ tp.cbAt = 0 ∧ tp.decAt = 0 ∧ tp.started = 0 ∧ tp.ended = 0
